@@ -38,8 +38,14 @@ class AliasPolicy(BasePolicy):
 
     row_select_preserves = False
 
-    def __init__(self, seeds: Dict[str, frozenset]):
+    may_union = True
+
+    def __init__(self, seeds: Dict[str, frozenset], prog=None, fn=None):
         self.seeds = seeds
+        self.prog, self.fn = prog, fn
+
+    def clone_for(self, callee, seeds):
+        return AliasPolicy(seeds, self.prog, callee)
 
     def initial(self, flow):
         return dict(self.seeds)
@@ -57,7 +63,7 @@ class AliasPolicy(BasePolicy):
                 return self.eval(expr.args[0], state, flow)
             if isinstance(expr.func, ast.Attribute) and expr.func.attr in ("reshape", "ravel", "squeeze", "view", "transpose") :
                 return self.eval(expr.func.value, state, flow)
-            return EMPTY
+            return self.summarise_call(expr, state, flow)
         if isinstance(expr, ast.Attribute) and expr.attr == "T":
             return self.eval(expr.value, state, flow)
         if isinstance(expr, ast.Subscript):
@@ -71,7 +77,7 @@ class AliasPolicy(BasePolicy):
 
 def alias_violations(prog, fn: FunctionInfo, seeds: Dict[str, frozenset]):
     """[(node, alias tags, what)] for in-place mutations through aliases."""
-    fl = TagFlow(prog, fn, AliasPolicy(seeds), may=True)
+    fl = TagFlow(prog, fn, AliasPolicy(seeds, prog, fn), may=True)
     out = []
     for node in ast.walk(fn.node):
         if prog.function_of(node) is not fn:
